@@ -639,3 +639,30 @@ Example tab_separator_is_not_pass :
   lr_args (server_parse_command_log [VERB_PASS] ([80; 65; 83; 83; 9; 120; 121] ++ eol))
   = [[80; 65; 83; 83; 9; 120; 121]; []].
 Proof. vm_compute. reflexivity. Qed.
+
+(* ------------------------------------------------------------------ the record of a line is decided by its dispatch key
+   Whatever the SHAPE of the line (no "V ++ SP :: p ++ w" decomposition): when the key the dispatcher looks the handler up
+   by -- lower(text before the first space of the rstripped line) -- is in the censor collection, the record is the
+   verb and one star per character of the rest; two such lines with the same verb and rests of equal length log the
+   same record. *)
+Lemma dispatch_key_censored_log censor line :
+  text_in (lower (fst (split_command line))) censor = true ->
+  server_parse_command_log censor line
+  = {| lr_msg := fmt_server_cmd;
+       lr_args := [fst (split_command line); stars (length (snd (split_command line)))] |}.
+Proof.
+  unfold server_parse_command_log. destruct (split_command line) as [cmd rest]. cbn [fst snd].
+  intros Hc. rewrite Hc. reflexivity.
+Qed.
+
+Lemma same_key_same_length_same_log censor l1 l2 :
+  text_in (lower (fst (split_command l1))) censor = true ->
+  fst (split_command l1) = fst (split_command l2) ->
+  length (snd (split_command l1)) = length (snd (split_command l2)) ->
+  server_parse_command_log censor l1 = server_parse_command_log censor l2.
+Proof.
+  intros Hc Hv Hl.
+  rewrite (dispatch_key_censored_log censor l1 Hc).
+  rewrite Hv in Hc. rewrite (dispatch_key_censored_log censor l2 Hc).
+  rewrite Hv, Hl. reflexivity.
+Qed.
